@@ -601,6 +601,11 @@ func (t *Dense) Zero() {
 		if err := t.zeroIter(it); err != nil {
 			panic(err)
 		}
+		if t.IsMasked() {
+			t.ResetMask()
+		}
+		// a view only zeroes its own elements, not the whole storage window it was cut from
+		return
 	}
 	if t.IsMasked() {
 		t.ResetMask()
